@@ -53,6 +53,8 @@ func (s *ContextScope) Kill() {
 
 // Stop stop the scope context without error
 func (s *ContextScope) Stop() {
+	s.errorsMU.Lock()
+	defer s.errorsMU.Unlock()
 	if !s.IsDone() {
 		verifhook.Yield("contextscope.stop.gap")
 		close(s.done)
